@@ -163,7 +163,14 @@ def main(tier: str) -> int:
         v.note(f"Config.tla: {len(cfgs)} configurations enumerated, {len(chosen)} run")
         specs = []
         for i, c in enumerate(chosen):
-            model = "gauss2" if i % 2 == 0 else "gauss3"
+            model = ("gauss2", "gauss3", "gaussoff2")[i % 3]
+            # options that decide WHEN the flow is trained / which proposal is used: on a likelihood peaked away
+            # from the centre of the prior, where an untrained flow does not cover the peak by accident
+            if names(c) & {"train_on_empty", "training_frequency", "cooldown", "maximum_uninformed",
+                           "uninformed_acceptance_threshold", "retrain_acceptance", "reset_acceptance", "memory",
+                           "reset_weights", "reset_permutations", "reset_flow", "acceptance_threshold",
+                           "analytic_priors", "checkpoint_on_training"} and c["sampler"] == "std":
+                model = "gaussoff2"
             if any(ch["name"] == "reparameterisations" for ch in (c["changes"].values() if isinstance(c["changes"], dict) else c["changes"])):
                 model = "gauss2"
             if names(c) == {"batch_size", "batch_norm_between_layers"}:
